@@ -19,8 +19,20 @@ impl TemplateLibrary {
         let mut templates = HashMap::new();
 
         let mut elem_id = 0;
+        // Visit the files in a fixed order (included files first, then by file ID)
+        // and keep the first definition for each name. This is the order in which
+        // duplicate definitions are reported, and ensures that the result does not
+        // depend on the iteration order of the hash map.
+        let mut library_contents = library_contents.into_iter().collect::<Vec<_>>();
+        library_contents
+            .sort_by_key(|(file_id, _)| (file_library.is_user_input(*file_id), *file_id));
         for (file_id, file_contents) in library_contents {
             for definition in file_contents {
+                if functions.contains_key(&definition.name())
+                    || templates.contains_key(&definition.name())
+                {
+                    continue;
+                }
                 match definition {
                     Definition::Function { name, args, arg_location, body, .. } => {
                         functions.insert(
